@@ -84,6 +84,16 @@ class Distribution(ABC):
             raise TypeError(f"stream {stream} not a random stream")
         self._stream: StreamInterface = stream
 
+    def _next_positive_float(self) -> float:
+        """Return the next number from the stream that is larger than zero.
+        A stream delivers numbers in [0, 1); the (very rare) value 0.0 has 
+        no logarithm, so algorithms that take the logarithm of a uniform 
+        number skip it."""
+        u: float = self._stream.next_float()
+        while u <= 0.0:
+            u = self._stream.next_float()
+        return u
+
 
 class DistContinuous(Distribution):
     """
@@ -523,9 +533,15 @@ class DistErlang(DistContinuous):
             # according to Law and Kelton, Simulation Modeling and Analysis
             # repeated drawing and composition is usually faster for k<=10
             product: float = 1.0
+            log_sum: float = 0.0
             for _ in range(self._k):
-                product *= self._stream.next_float()
-            return -self._scale * math.log(product)
+                u: float = self._next_positive_float()
+                product *= u
+                log_sum += math.log(u)
+            if product > 0.0:
+                return -self._scale * math.log(product)
+            # the product of very small numbers underflowed to zero
+            return -self._scale * log_sum
         return self._dist_gamma.draw()
 
     def _set_stream(self, stream: StreamInterface):
@@ -604,7 +620,7 @@ class DistExponential(DistContinuous):
         """
         Draw a value from the Exponential distribution.
         """
-        return -self._mean * math.log(self._stream.next_float())
+        return -self._mean * math.log(self._next_positive_float())
 
     def probability_density(self, x: float) -> float:
         """Returns the probability density value for value x."""
@@ -704,8 +720,8 @@ class DistGamma(DistContinuous):
             counter: int = 0
             while counter < 1000:
                 #  step 1.
-                u1: float = self._stream.next_float()
-                u2: float = self._stream.next_float()
+                u1: float = self._next_positive_float()
+                u2: float = self._next_positive_float()
                 #  step 2.
                 v = a * math.log(u1 / (1.0 - u1))
                 y = self._shape * math.exp(v)
@@ -715,7 +731,7 @@ class DistGamma(DistContinuous):
                 if (w + d - theta * z) >= 0.0:
                     return self._scale * y
                 #  step 4.
-                if w > math.log(z):
+                if z <= 0.0 or w > math.log(z):  # z can underflow to zero
                     return self._scale * y
                 counter += 1
             logger.info("Gamma distribution -- 1000 tries for alpha>1.0")
@@ -723,7 +739,7 @@ class DistGamma(DistContinuous):
         else:
             #  shape == 1.0
             #  Gamma(1.0, scale) ~ exponential with mean = scale
-            return -self._scale * math.log(self._stream.next_float())
+            return -self._scale * math.log(self._next_positive_float())
 
     def probability_density(self, x: float) -> float:
         """Returns the probability density value for value x."""
@@ -796,7 +812,7 @@ class DistGeometric(DistDiscrete):
         the number of failures of independent Bernoulli trials until the
         first success.
         """
-        u = self._stream.next_float()
+        u = self._next_positive_float()
         return math.floor(math.log(u) / self._lnp)
 
     def probability(self, observation: int) -> float:
@@ -872,7 +888,7 @@ class DistNegBinomial(DistDiscrete):
         """
         x: int = 0
         for _ in range(self._s):
-            u = self._stream.next_float()
+            u = self._next_positive_float()
             x += math.floor(math.log(u) / self._lnp)
         return x
 
@@ -992,7 +1008,7 @@ class DistNormal(DistContinuous):
             self._have_saved_gaussian = False
             return self._saved_gaussian
         s = 1.0
-        while s >= 1.0:
+        while s >= 1.0 or s == 0.0:  # s == 0 has no logarithm
             v1 = 2.0 * self._stream.next_float() - 1.0  # between -1 and 1
             v2 = 2.0 * self._stream.next_float() - 1.0  # between -1 and 1
             s = v1 * v1 + v2 * v2
@@ -1748,7 +1764,7 @@ class DistWeibull(DistContinuous):
         """
         Draw a value from the Weibull distribution.
         """
-        return (self._beta * math.pow(-math.log(self._stream.next_float()), 
+        return (self._beta * math.pow(-math.log(self._next_positive_float()), 
                                       1.0 / self._alpha))
 
     def probability_density(self, x: float) -> float:
